@@ -12,6 +12,8 @@ oracles    Python-side conservation checks with Fractions on every case; F18 pro
 from __future__ import annotations
 
 import dataclasses
+from pathlib import Path
+import json
 import datetime
 import random
 import re
@@ -22,7 +24,7 @@ from fractions import Fraction
 import numpy as np
 
 from harness.c16 import (cq, cqlist, chdr, prove_static_local, tri_from_json, tri_to_json, val_from_json,
-                         val_to_json)
+                         val_to_json, respell_meta, rebuild_dates, meta_key, flatten_alike_metas)
 from harness.common import COQ, REPO, parse_coq_eval
 from harness.coqterm import NotRepresentable, ccell, cerr, cstr, canon_meta
 from harness.gen import Gen, add_m, month_end
@@ -165,7 +167,32 @@ def gen_convert_currency_only(r: random.Random):
     return dict(kind="convert", tri=tri, target=target, rates=rates, style="dyadic", mode="currency-only")
 
 
+SPELLINGS = {"upper": lambda c: c, "lower": lambda c: c.lower(), "mixed": lambda c: c[0] + c[1:].lower(),
+             "padded": lambda c: " " + c.lower() + " "}
+
+
 def gen_convert(r: random.Random):
+    """currency codes are opaque strings for the library: data, target and rate-table keys written in the same spelling
+    (upper, lower, mixed case, padded) must convert exactly alike, and the output carries the caller's target verbatim"""
+    from bermuda import Triangle
+
+    case = gen_convert_upper(r)
+    spelling = r.choice(["upper", "upper", "lower", "mixed", "padded", "lower"])
+    f = SPELLINGS[spelling]
+    case["spelling"] = spelling
+    case["codes"] = sorted({f(c) for c in ["USD", "EUR", "GBP", "JPY", "CHF"]})
+    if spelling != "upper":
+        cells = [c.replace(metadata=dataclasses.replace(c.metadata, currency=f(c.metadata.currency)))
+                 if c.metadata.currency is not None else c for c in case["tri"].cells]
+        with warnings.catch_warnings():
+            warnings.simplefilter("ignore")
+            case["tri"] = Triangle(cells)
+        case["target"] = f(case["target"])
+        case["rates"] = {f(k): v for k, v in case["rates"].items()}
+    return case
+
+
+def gen_convert_upper(r: random.Random):
     from bermuda import Triangle
 
     if r.random() < 0.3:
@@ -208,12 +235,21 @@ def gen_convert(r: random.Random):
 def run_convert(case):
     from bermuda.utils.currency import convert_currency
 
+    if case.get("kw"):
+        return run_guard(lambda: convert_currency(exchange_rates=case["rates"], target_currency=case["target"],
+                                                  triangle=case["tri"]))
     return run_guard(lambda: convert_currency(case["tri"], case["target"], case["rates"]))
 
 
 def oracle_convert(case, res):
     """exactly the documented currency fields are multiplied by the slice's rate; everything else unchanged"""
     tri, target, rates = case["tri"], case["target"], case["rates"]
+    from bermuda import Metadata
+
+    for x in case.get("codes", []):
+        stored = Metadata(currency=x).currency
+        if stored != x:
+            return [f"Metadata(currency={x!r}).currency is {stored!r}: the attribute is not preserved verbatim"]
     must_refuse = any(c.metadata.currency is None or (c.metadata.currency != target and c.metadata.currency not in rates)
                       for c in tri.cells)
     if must_refuse:
@@ -328,7 +364,9 @@ def gen_disagg(r: random.Random, partial=True):
     divisors = [d for d in (1, 2, 3, 4, 6) if R % d == 0 and d < R]
     sub = r.choice(divisors)
     how = "ok"
-    x = r.random()
+    fiscal = r.random() < 0.4
+    clean = fiscal and r.random() < 0.7        # most fiscal-February cases are plain valid requests (must not be refused)
+    x = 1.0 if clean else r.random()
     if x < 0.06:
         sub, how = R, "same"
     elif x < 0.10:
@@ -337,10 +375,25 @@ def gen_disagg(r: random.Random, partial=True):
         sub, how = (4 if R == 6 else 5), "nondivisor"
     n_periods = r.randint(1, 3)
     y0, m0 = r.randint(2000, 2025), r.choice([1, 4, 7, 10])
+    cal = "calendar"
+    if fiscal:
+        # fiscal (non-calendar) periods with a boundary on the last day of a February: century years that are / are not
+        # leap years, ordinary leap and non-leap years (1970+; earlier experience is the separate finding probed below)
+        cal = "fiscal-feb"
+        Y = r.choice([2000, 2100, 2100, 2024, 2023, 2096, 1972, 2001, 2200])
+        k = r.randint(1, n_periods)                       # the k-th period ends at the end of February of year Y
+        y0, m0 = add_m(Y, 3, -k * R)
+        if y0 < 1970:                                      # stay clear of the pre-1970 finding (F10d)
+            y0, m0 = add_m(2000, 3, -k * R)
     fields = r.sample(FIELD_POOL, r.randint(1, 4))
+    if clean and "paid_loss" not in fields:
+        fields.append("paid_loss")
     kinds = {f: r.choice(["int", "float", "arr_float", "arr_int"]) for f in fields}
     n_slices = r.choice([1, 1, 2])
-    metas = [Metadata(**kw) for kw in ({}, {"country": "DE"})][:n_slices]
+    metas = r.choice([[Metadata(), Metadata(country="DE")],
+                      [Metadata(details={"k": "v"}), Metadata(loss_details={"k": "v"})],
+                      [Metadata(details={"currency": "USD"}), Metadata(currency="USD")],
+                      [Metadata(details={"k": ""}), Metadata(details={"k": None})]])[:n_slices]
     cells = []
     step = sub if how in ("ok",) else r.choice([1, 3])
     for m in metas:
@@ -356,11 +409,13 @@ def gen_disagg(r: random.Random, partial=True):
                 + [R] + [R + 3 * k for k in range(1, 4) if r.random() < 0.5]))
             for o in offs:
                 e = month_end(*add_m(cur[0], cur[1], o - 1))
+                if not clean and r.random() < 0.12:
+                    e = e + datetime.timedelta(days=r.choice([-1, 1]))     # the day before / after a month end
                 cells.append(CumulativeCell(period_start=ps, period_end=pe, evaluation_date=e, metadata=m,
                                             values={f: g.value(kinds[f], 3) for f in fields}))
             cur = add_m(ey, em, 1)
     n = R // sub if R % sub == 0 and sub < R else 2
-    wx = r.random()
+    wx = r.random() * (0.62 if clean else 1.0)
     wtag = "none"
     if wx < 0.30:
         weights = None
@@ -399,7 +454,7 @@ def gen_disagg(r: random.Random, partial=True):
     else:
         w = dy_weights(r, n)
         weights, wtag = [w[0] + 1.0] + w[1:-1] + ([w[-1] - 1.0] if n > 1 else []), "bad-range"
-    fx = r.random()
+    fx = 0.0 if clean else r.random()
     if fx < 0.5:
         farg = None
     elif fx < 0.9:
@@ -415,12 +470,15 @@ def gen_disagg(r: random.Random, partial=True):
             # direct conservation oracle only (the Coq model is stated for cumulative triangles)
             tri = tri.to_incremental()
     return dict(kind="disagg", tri=tri, res=sub, weights=weights, fields=farg, how=how, wtag=wtag, R=R,
-                incremental=incremental)
+                incremental=incremental, cal=cal)
 
 
 def run_disagg(case):
     from bermuda.utils.disaggregate import disaggregate_experience
 
+    if case.get("kw"):
+        return run_guard(lambda: disaggregate_experience(triangle=case["tri"], fields=case["fields"],
+                                                         period_weights=case["weights"], resolution_months=case["res"]))
     return run_guard(lambda: disaggregate_experience(case["tri"], case["res"], case["weights"], case["fields"]))
 
 
@@ -430,12 +488,25 @@ def sub_ends(c, sub, n):
     return [add_months(c.period_start, (k + 1) * sub) - datetime.timedelta(days=1) for k in range(n)]
 
 
+def disagg_must_succeed(case):
+    """a semi-regular triangle, a divisor sub-resolution, valid weights (first weight positive) and at least one field to
+    disaggregate: the call has to return a triangle"""
+    from bermuda.utils.disaggregate import DEFAULT_INTERPOLATION_FIELDS
+
+    if case["how"] != "ok" or case["wtag"] not in ("none", "dyadic", "float") or case.get("probe"):
+        return False
+    fields = case["fields"] if case["fields"] is not None else DEFAULT_INTERPOLATION_FIELDS
+    return any(f in fields for f in case["tri"].fields)
+
+
 def oracle_disagg(case, res):
     """sub-period values add up to the original (for cells with >= 1 observable sub-period and fields in `fields`);
     aggregating back reproduces fully observable cells.  -> (fails, dropped_cells)"""
     from bermuda.utils.disaggregate import DEFAULT_INTERPOLATION_FIELDS
 
     tri, sub = case["tri"], case["res"]
+    if res[0] == "err" and disagg_must_succeed(case):
+        return [f"valid input refused: {type(res[1]).__name__}: {res[1]}"], []
     if res[0] != "ok" or case["how"] != "ok" or case["wtag"].startswith("bad"):
         # (weights whose sum is only close to 1 -- wtag "near-one" -- are not skipped: either refused or conserving)
         if case["wtag"] == "near-one" and res[0] == "err" and not isinstance(res[1], ValueError):
@@ -449,10 +520,10 @@ def oracle_disagg(case, res):
     fails, dropped = [], []
     index = {}
     for o in out.cells:
-        index.setdefault((canon_meta(o.metadata, ordered=True), o.evaluation_date), []).append(o)
+        index.setdefault((meta_key(o.metadata), o.evaluation_date), []).append(o)
     for c in tri.cells:
         ends = [e for e in sub_ends(c, sub, n) if e <= c.evaluation_date]
-        parts = [o for o in index.get((canon_meta(c.metadata, ordered=True), c.evaluation_date), [])
+        parts = [o for o in index.get((meta_key(c.metadata), c.evaluation_date), [])
                  if c.period_start <= o.period_start and o.period_end <= c.period_end]
         flds = [f for f in c.values if f in fields]
         if not ends:
@@ -496,7 +567,7 @@ def oracle_reaggregate(case, res):
     back = run_guard(lambda: res[1].aggregate(period_resolution=(case["R"], "month"), period_origin=origin))
     if back[0] != "ok":
         return [f"aggregating the disaggregated triangle back raised {type(back[1]).__name__}: {back[1]}"]
-    idx = {(canon_meta(o.metadata, ordered=True), o.period_start, o.period_end, o.evaluation_date): o for o in back[1].cells}
+    idx = {(meta_key(o.metadata), o.period_start, o.period_end, o.evaluation_date): o for o in back[1].cells}
     fails = []
     for c in tri.cells:
         if c.evaluation_date < c.period_end:
@@ -504,7 +575,7 @@ def oracle_reaggregate(case, res):
         flds = [f for f in c.values if f in fields]
         if not flds:
             continue
-        o = idx.get((canon_meta(c.metadata, ordered=True), c.period_start, c.period_end, c.evaluation_date))
+        o = idx.get((meta_key(c.metadata), c.period_start, c.period_end, c.evaluation_date))
         if o is None:
             fails.append(f"cell {c.period_start}..{c.period_end} at {c.evaluation_date} is missing after aggregating back")
             continue
@@ -576,7 +647,9 @@ def gen_aq(r: random.Random, directed=None):
     fields = r.sample(FIELD_POOL, r.randint(1, 3))
     kinds = {f: r.choice(["int", "float", "arr_float"]) for f in fields}
     n_slices = r.choice([1, 1, 2])
-    metas = [Metadata(**kw) for kw in ({"risk_basis": "Accident"}, {"risk_basis": "Accident", "country": "DE"})][:n_slices]
+    metas = r.choice([[Metadata(risk_basis="Accident"), Metadata(risk_basis="Accident", country="DE")],
+                      [Metadata(details={"k": "v"}), Metadata(loss_details={"k": "v"})],
+                      [Metadata(details={"reinsurance_basis": "Net"}), Metadata(reinsurance_basis="Net")]])[:n_slices]
     cells = []
     shape = r.choice(["triangle", "triangle", "rectangle", "holey"])
     for m in metas:
@@ -610,7 +683,7 @@ def gen_aq(r: random.Random, directed=None):
     else:
         # inside the hypothesis of the conservation theorem (every accident quarter has a positive total share):
         # non-continuous issuance only with policies at least as long as the policy year (the rest is F18, probed apart)
-        plen = r.choice([12, 12, 12, 6, 3, 24])
+        plen = r.choice([12, 12, 12, 6, 3, 24, 11])
         params = dict(policy_length_months=plen,
                       policy_year_origin=D(2020, r.choice([1, 1, 4, 7, 10, 3]), 1),
                       continuous_issuance=(r.random() < 0.7) or plen < 12)
@@ -632,6 +705,9 @@ def gen_aq(r: random.Random, directed=None):
 def run_aq(case):
     from bermuda.utils.basis import accident_quarter_to_policy_year
 
+    if case.get("kw"):
+        return run_guard(lambda: accident_quarter_to_policy_year(
+            case["tri"], case["policy_length_months"], case["policy_year_origin"], case["continuous_issuance"]))
     return run_guard(lambda: accident_quarter_to_policy_year(
         case["tri"], policy_length_months=case["policy_length_months"],
         policy_year_origin=case["policy_year_origin"], continuous_issuance=case["continuous_issuance"]))
@@ -685,7 +761,7 @@ def oracle_aq(case, res):
 
     def key(c):
         m = dataclasses.replace(c.metadata, risk_basis="Policy")
-        return (canon_meta(m, ordered=True), c.evaluation_date)
+        return (meta_key(m), c.evaluation_date)
 
     tin, tout = {}, {}
     for src, acc in ((case["tri"].cells, tin), (out.cells, tout)):
@@ -781,6 +857,12 @@ def gen_premium(r: random.Random):
 def run_premium(case):
     from bermuda.utils.premium_pattern import program_earned_premium
 
+    if case.get("kw"):
+        return run_guard(lambda: program_earned_premium(
+            continuous_writing=case["continuous_writing"], output_offset=case["output_offset"],
+            output_resolution=case["output_resolution"], earning_resolution=case["earning_resolution"],
+            earning_pattern=np.array(case["earning_pattern"], dtype=float), writing_resolution=case["writing_resolution"],
+            writing_pattern=np.array(case["writing_pattern"], dtype=float), premium_volume=case["premium_volume"]))
     return run_guard(lambda: program_earned_premium(
         case["premium_volume"], np.array(case["writing_pattern"], dtype=float), case["writing_resolution"],
         np.array(case["earning_pattern"], dtype=float), case["earning_resolution"], case["output_resolution"],
@@ -852,17 +934,81 @@ def case_json(case):
 def case_from_json(j):
     c = dict(j)
     if "tri" in c:
-        c["tri"] = tri_from_json(c["tri"])
+        c["tri"] = tri_from_json(c["tri"], c.get("date_kind", "date"))
     if "policy_year_origin" in c:
         c["policy_year_origin"] = D.fromisoformat(c["policy_year_origin"])
     return c
 
 
+def harden_case(r, case):
+    """families A / D / I of notes/HARDENING.md applied to a generated case (convert, disagg, aq)"""
+    from bermuda import Triangle
+
+    if "tri" not in case or len(case["tri"]) == 0:
+        return case
+    x = r.random()
+    cells = list(case["tri"].cells)
+    if x < 0.15:
+        # A: EQUAL metadata spelled differently inside ONE slice (detail order, 7 vs 7.0, True vs 1, limit int/float)
+        case["harden"] = "meta-spelling"
+        cells = [respell_meta(c, 0, i, True) for i, c in enumerate(cells)]
+    elif x < 0.30:
+        # D: coordinates handed to the constructor as pandas.Timestamp / datetime.datetime (non-midnight)
+        case["harden"] = "date-kinds"
+        case["date_kind"] = r.choice(["timestamp", "datetime"])
+        cells = [rebuild_dates(c, case["date_kind"]) for c in cells]
+    elif x < 0.38 and case["kind"] in ("convert", "aq"):
+        # I: restated cells -- the same coordinates a second time with other values (accepted with a warning)
+        case["harden"] = "restated"
+        c0 = cells[r.randrange(len(cells))]
+        cells = cells + [c0.replace(values={k: v + 1 for k, v in c0.values.items()})]
+    else:
+        return case
+    with warnings.catch_warnings():
+        warnings.simplefilter("ignore")
+        case["tri"] = Triangle(cells)
+    return case
+
+
+def stored_date_failures(case):
+    t = case.get("tri")
+    if t is None:
+        return []
+    for c in t.cells:
+        for nm in ("period_start", "period_end", "evaluation_date"):
+            if type(getattr(c, nm)) is not datetime.date:
+                return [f"Cell stored {nm} as {type(getattr(c, nm)).__name__}, not datetime.date "
+                        f"(constructed from {case.get('date_kind', 'date')} inputs)"]
+    return []
+
+
 RUNNERS = {"convert": run_convert, "disagg": run_disagg, "aq": run_aq, "premium": run_premium}
 
 
+def canon_result(res):
+    from harness.coqterm import canon_tri
+
+    if res[0] == "err":
+        return ("err", type(res[1]).__name__)
+    if isinstance(res[1], tuple):
+        return ("ok", tuple(np.asarray(a).tobytes().hex() for a in res[1]))
+    return ("ok", canon_tri(res[1], ordered=True))
+
+
 def evaluate(case, res):
-    """all direct oracles of a case -> (fails, finding_class, extra)"""
+    """all direct oracles of a case -> (fails, finding_class)"""
+    pre = stored_date_failures(case)
+    if pre:
+        return pre, None
+    fails, fc = evaluate_core(case, res)
+    if not fails and case.get("twice"):
+        # H: the same call a second time gives the same answer
+        if canon_result(RUNNERS[case["kind"]](case)) != canon_result(res):
+            fails = ["the same call twice gives different results"]
+    return fails, fc
+
+
+def evaluate_core(case, res):
     k = case["kind"]
     if k == "convert":
         return oracle_convert(case, res), None
@@ -988,8 +1134,12 @@ def run(ctx):
                 case = gens[kind](r)
             except Exception:  # noqa: BLE001  (generator produced something bermuda refuses to build)
                 continue
+            case = harden_case(r, case)
+            case["twice"] = n_done % 5 == 0
+            case["kw"] = n_done % 2 == 1          # K: keyword vs positional spelling of the call
             n_done += 1
             res = RUNNERS[kind](case)
+            ctx.hist(f"{kind}:harden-{case.get('harden', 'none')}")
             ctx.hist(f"{kind}:" + ("ok" if res[0] == "ok" else type(res[1]).__name__))
             fails, fc = evaluate(case, res)
             if fails:
@@ -998,10 +1148,12 @@ def run(ctx):
                 if kind == "convert":
                     ctx.hist(f"convert:rates-{case['style']}")
                     ctx.hist(f"convert:mode-{case.get('mode', 'general')}")
+                    ctx.hist(f"convert:spelling-{case.get('spelling', 'upper')}")
                     tol = TOL if case["style"] == "float" else Fraction(0)
                     txt = coq_convert(case, res, tol)
                 elif kind == "disagg":
                     ctx.hist(f"disagg:{case['how']}/{case['wtag']}/R{case['R']}->{case['res']}")
+                    ctx.hist(f"disagg:periods-{case.get('cal', 'calendar')}")
                     full = all(c.evaluation_date >= c.period_end for c in case["tri"].cells)
                     exact = full and (case["weights"] is None and case["R"] // max(case["res"], 1) in (1, 2, 4)
                                       or case["wtag"] == "dyadic")
@@ -1037,6 +1189,8 @@ def run(ctx):
     # ---------------------------------------------------------------- directed probes
     probe_f18(ctx)
     probe_pre1970(ctx)
+    probe_pre1970_disagg(ctx)
+    hardening(ctx)
     probe_candidates(ctx)
 
     # ---------------------------------------------------------------- verdicts
@@ -1077,6 +1231,32 @@ def probe_f18(ctx):
 
 
 PRE1970_CLASS = {"kind": "aq_to_py_pre1970_policy_year_length"}
+PRE1970_DISAGG = {"kind": "disaggregate_pre1970_subperiods_shifted"}
+
+
+def probe_pre1970_disagg(ctx):
+    """the fiscal quarter Dec 1899 - Feb 1900 split into months: the sub-period starts come from add_months, which is off
+    by one month before 1970 (F10), so the sub-periods are 1900-01..1900-03 instead of 1899-12..1900-02"""
+    from bermuda import CumulativeCell, Triangle
+
+    def cc(ps, pe, e, v):
+        return CumulativeCell(period_start=ps, period_end=pe, evaluation_date=e, values=v)
+
+    t = Triangle([cc(D(1899, 12, 1), D(1900, 2, 28), D(1900, 5, 31), {"paid_loss": 96.0}),
+                  cc(D(1900, 3, 1), D(1900, 5, 31), D(1900, 5, 31), {"paid_loss": 48.0})])
+    case = dict(kind="disagg", tri=t, res=1, weights=None, fields=None, how="ok", wtag="none", R=3, probe="pre1970")
+    res = run_disagg(case)
+    ctx.count(evaluations=1)
+    if res[0] != "ok":
+        ctx.violation("impl-violation", f"disaggregate_experience on 1899/1900 fiscal quarters raised {type(res[1]).__name__}: {res[1]}",
+                      {"case": case_json(case)}, found_input=True, finding_class=PRE1970_DISAGG)
+        return
+    fails, dropped = oracle_disagg(case, res)
+    if fails or dropped:
+        what = fails[0] if fails else "a cell was dropped"
+        ctx.violation("impl-violation", "disaggregate_experience on the fiscal quarter 1899-12-01..1900-02-28: " + what
+                      + " (sub-periods: " + ", ".join(f"{c.period_start}..{c.period_end}" for c in res[1].cells[:3]) + ")",
+                      {"case": case_json(case), "failures": fails[:5]}, found_input=True, finding_class=PRE1970_DISAGG)
 
 
 def probe_pre1970(ctx):
@@ -1111,6 +1291,131 @@ def policy_period_failures(out):
         if c.period_start.day != 1 or c.period_end != month_end(y, m):
             bad.append(f"policy period {c.period_start}..{c.period_end} is not a twelve-month year")
     return sorted(set(bad))
+
+
+GAPPED = {"kind": "disaggregate_gapped_periods_resolution"}
+
+
+def hardening(ctx):
+    """small directed streams (families E, F, G, J of notes/HARDENING.md) that run on every quick run"""
+    from bermuda import CumulativeCell, Metadata, Triangle
+    from bermuda.date_utils import period_resolution
+    from bermuda.utils.basis import accident_quarter_to_policy_year
+    from bermuda.utils.currency import convert_currency
+    from bermuda.utils.disaggregate import disaggregate_experience
+
+    y = dict(period_start=D(2020, 1, 1), period_end=D(2020, 12, 31), evaluation_date=D(2020, 12, 31))
+    q = dict(period_start=D(2020, 1, 1), period_end=D(2020, 3, 31), evaluation_date=D(2020, 3, 31))
+
+    def cc(kw, v, m=None):
+        return CumulativeCell(**kw, values=v, metadata=m or Metadata())
+
+    def report(what, name, fc=None):
+        ctx.violation("impl-violation", what, {"probe": "hardening", "name": name, "case": None}, found_input=True, finding_class=fc)
+
+    def vals(t):
+        return [{k: (np.asarray(v).tolist(), type(v).__name__) for k, v in c.values.items()} for c in t.cells]
+
+    n = 0
+    # G: NumPy scalar / narrow-dtype values keep their kind and add up (np.int64 scalar: F31, repaired)
+    t = Triangle([cc(y, {"paid_loss": np.int64(120), "reported_loss": np.float64(60.0),
+                         "incurred_loss": np.array([12, 24], dtype=np.float32), "earned_premium": np.array([8], dtype=np.int32)})])
+    r = run_guard(lambda: disaggregate_experience(t, 3))
+    n += 1
+    if r[0] != "ok" or len(r[1]) != 4:
+        report(f"disaggregate_experience on NumPy-typed values: {r[1]!r}"[:200], "numpy-disagg")
+    else:
+        for f, want, scalar in (("paid_loss", [30.0], True), ("reported_loss", [15.0], True), ("incurred_loss", [3.0, 6.0], False),
+                                ("earned_premium", [2.0], False)):
+            for c in r[1].cells:
+                v = c.values[f]
+                if np.asarray(v, dtype=float).reshape(-1).tolist() != want or (np.ndim(v) == 0) != scalar:
+                    report(f"disaggregate_experience on NumPy-typed values: field {f} of a sub-period is {v!r} "
+                           f"(expected {'scalar' if scalar else 'array'} {want})", "numpy-disagg")
+                    break
+        back = run_guard(lambda: r[1].aggregate(period_resolution=(12, "month")))
+        if back[0] != "ok" or len(back[1]) != 1 or any(
+                np.ndim(back[1].cells[0][f]) != np.ndim(t.cells[0][f]) or
+                np.asarray(back[1].cells[0][f], dtype=float).tolist() != np.asarray(t.cells[0][f], dtype=float).tolist()
+                for f in t.cells[0].values):
+            report("aggregate(disaggregate(t)) does not reproduce NumPy-typed values (kind or amount): "
+                   + (repr(back[1])[:120] if back[0] == "err" else repr(vals(back[1]))[:160]), "numpy-roundtrip")
+    t = Triangle([cc(q, {"paid_loss": np.int64(2**53 + 2), "reported_claims": np.int64(2**53 + 3),
+                         "incurred_loss": np.array([1.5, 2.5], dtype=np.float32)}, Metadata(currency="EUR"))])
+    r = run_guard(lambda: convert_currency(t, "USD", {"EUR": 2}))
+    n += 1
+    if r[0] != "ok" or int(r[1].cells[0]["paid_loss"]) != 2 * (2**53 + 2) or int(r[1].cells[0]["reported_claims"]) != 2**53 + 3 \
+            or np.asarray(r[1].cells[0]["incurred_loss"]).tolist() != [3.0, 5.0]:
+        report("convert_currency with an integer rate on np.int64 beyond 2**53 / float32 values: "
+               + (repr(r[1])[:120] if r[0] == "err" else repr(vals(r[1]))[:200]), "numpy-convert")
+    # E: falsy but valid arguments
+    t0 = Triangle([cc(q, {"paid_loss": 4.0, "reported_claims": 0}, Metadata(currency=""))])
+    for name, call, want in (
+            ("currency '' == target ''", lambda: convert_currency(t0, "", {}), 4.0),
+            ("rate table keyed by ''", lambda: convert_currency(t0, "USD", {"": 2.0}), 8.0),
+            ("rate 0.0", lambda: convert_currency(t0, "USD", {"": 0.0}), 0.0),
+            ("integer rate 0", lambda: convert_currency(t0, "USD", {"": 0}), 0)):
+        r = run_guard(call)
+        n += 1
+        if r[0] != "ok" or len(r[1]) != 1 or r[1].cells[0]["paid_loss"] != want or r[1].cells[0]["reported_claims"] != 0:
+            report(f"convert_currency ({name}): " + (repr(r[1])[:120] if r[0] == "err" else repr(vals(r[1]))), "falsy-convert")
+    ty = Triangle([cc(y, {"paid_loss": 0, "earned_premium": 0.0, "reported_loss": np.zeros(2)})])
+    r = run_guard(lambda: disaggregate_experience(ty, 6, [0.5, 0.5], []))
+    n += 1
+    if not (r[0] == "err" and isinstance(r[1], ValueError)):
+        report("disaggregate_experience(fields=[]) must be refused with ValueError (no field to disaggregate), got "
+               + (repr(r[1])[:100]), "falsy-fields")
+    r = run_guard(lambda: disaggregate_experience(ty, 6))
+    n += 1
+    if r[0] != "ok" or len(r[1]) != 2 or any(np.asarray(v, dtype=float).any() for c in r[1].cells for v in c.values.values()):
+        report("disaggregate_experience on all-zero values: " + (repr(r[1])[:120] if r[0] == "err" else repr(vals(r[1]))), "zeros-disagg")
+    from bermuda.utils.premium_pattern import program_earned_premium
+
+    r = run_guard(lambda: program_earned_premium(0, np.array([1.0, 3.0]), 3, np.array([1.0]), 6, 3))
+    n += 1
+    if r[0] != "ok" or np.asarray(r[1][0]).any() or np.asarray(r[1][1]).any():
+        report("program_earned_premium(premium_volume=0) is not identically zero", "falsy-premium")
+    # F: empty triangles (convert / policy year return the empty triangle; disaggregate_experience(Triangle([])) raises
+    # ValueError -- outside the quantifier 'semi-regular triangles of resolution 3/6/12' (lead's decision): a note only)
+    for name, call in (("convert_currency", lambda: convert_currency(Triangle([]), "USD", {})),
+                       ("accident_quarter_to_policy_year", lambda: accident_quarter_to_policy_year(Triangle([])))):
+        r = run_guard(call)
+        n += 1
+        if r[0] != "ok" or len(r[1]) != 0:
+            report(f"{name} of the empty triangle is not the empty triangle: {r[1]!r}"[:160], "empty")
+    r = run_guard(lambda: disaggregate_experience(Triangle([]), 3))
+    ctx.notes.append("disaggregate_experience(Triangle([]), 3) -> " + ("ok" if r[0] == "ok" else type(r[1]).__name__)
+                     + " (outside the quantifier; not flagged)")
+    # F: a field present only at later evaluations / missing in the first cell
+    t = Triangle([cc(dict(y, evaluation_date=D(2020, 12, 31)), {"paid_loss": 40.0}),
+                  cc(dict(y, evaluation_date=D(2021, 3, 31)), {"paid_loss": 60.0, "reported_loss": 80.0})])
+    r = run_guard(lambda: disaggregate_experience(t, 3))
+    n += 1
+    ok = r[0] == "ok" and len(r[1]) == 8
+    if ok:
+        late = [c for c in r[1].cells if c.evaluation_date == D(2021, 3, 31)]
+        ok = all(set(c.values) == {"paid_loss", "reported_loss"} and c["reported_loss"] == 20.0 for c in late) and \
+            all(set(c.values) == {"paid_loss"} for c in r[1].cells if c.evaluation_date == D(2020, 12, 31))
+    if not ok:
+        report("disaggregate_experience with a field present only at the later evaluation: "
+               + (repr(r[1])[:120] if r[0] == "err" else repr(vals(r[1]))[:200]), "late-field")
+    # J: gapped semi-regular periods: period_resolution is the gcd of the start differences (3), not the period length (12)
+    t = Triangle([cc(dict(period_start=D(2020, 1, 1), period_end=D(2020, 12, 31), evaluation_date=D(2022, 3, 31)), {"paid_loss": 120.0}),
+                  cc(dict(period_start=D(2021, 4, 1), period_end=D(2022, 3, 31), evaluation_date=D(2022, 3, 31)), {"paid_loss": 60.0})])
+    r = run_guard(lambda: disaggregate_experience(t, 1))
+    n += 1
+    if r[0] == "ok":
+        res0 = period_resolution(t)
+        back = run_guard(lambda: r[1].aggregate(period_resolution=(res0, "month"), period_origin=D(2019, 12, 31)))
+        same = back[0] == "ok" and [(c.period_start, c.period_end, c["paid_loss"]) for c in back[1].cells] == \
+            [(c.period_start, c.period_end, c["paid_loss"]) for c in t.cells]
+        if not same:
+            report("disaggregate_experience on 12-month periods with a gap (period_resolution = gcd = 3): aggregating back at the "
+                   "original resolution gives " + (repr(back[1])[:80] if back[0] == "err" else
+                   repr([(str(c.period_start), str(c.period_end), c["paid_loss"]) for c in back[1].cells]))
+                   + " instead of the two 12-month input periods", "gapped", GAPPED)
+    ctx.count(evaluations=n)
+    ctx.hist("hardening:directed", n)
 
 
 def probe_candidates(ctx):
@@ -1156,6 +1461,18 @@ def probe_candidates(ctx):
 
 
 def replay(ctx, data):
+    if data.get("probe") == "hardening":
+        from harness.common import Ctx
+
+        c2 = Ctx("C18", "quick", 1)
+        c2.known = []
+        hardening(c2)
+        hit = [v for v in c2.violations if json.load(open(v["replay"]))["data"].get("name") == data.get("name")]
+        for v in c2.violations:
+            Path(v["replay"]).unlink(missing_ok=True)
+        for v in hit:
+            print("  FAIL:", v["what"])
+        return 1 if hit else 0
     if data.get("probe") == "H2":
         from bermuda import CumulativeCell, Triangle
         from bermuda.utils.disaggregate import disaggregate_experience
